@@ -273,6 +273,13 @@ class Evaluator:
         if isinstance(n, ast.UnaryOp) and isinstance(n.op, ast.Invert):
             return self.ev(n.operand)
         if isinstance(n, ast.BinOp):
+            if isinstance(n.op, ast.Mod):
+                try:
+                    l_ = self.ev(n.left)
+                except NotInFragment:
+                    l_ = None
+                if l_ is not None and l_.kind == "cycidx":
+                    return l_
             if isinstance(n.op, ast.Mod) and "np.mod" in self.hooks:
                 # `a % b` is np.mod(a, b)
                 return self.hooks["np.mod"](self, ast.Call(func=ast.Name(id="np.mod", ctx=ast.Load()), args=[n.left, n.right], keywords=[]))
@@ -289,6 +296,15 @@ class Evaluator:
         raise NotInFragment(type(n).__name__)
 
     def binop(self, op, a: SV, b: SV) -> SV:
+        if a is not None and b is not None and "cycidx" in (a.kind, b.kind):
+            # (i + k) % N : index arithmetic on the vertex cycle, k an integer constant
+            idx, other = (a, b) if a.kind == "cycidx" else (b, a)
+            if isinstance(op, ast.Mod) and idx is a:
+                return idx
+            k = other.comps[0].const_value() if (other.kind == "scal" and len(other.comps) == 1) else None
+            if k is not None and k.denominator == 1 and isinstance(op, (ast.Add, ast.Sub)) and (idx is a or isinstance(op, ast.Add)):
+                return SV("cycidx", [idx.comps[0] + (Poly.const(k) if isinstance(op, ast.Add) else Poly.const(-k))])
+            raise NotInFragment("index arithmetic")
         if isinstance(op, ast.MatMult):
             if a.kind == "rot":
                 return b      # R @ v: an orthogonal change of frame
@@ -356,6 +372,28 @@ class Evaluator:
         if base.kind == "tuple":
             i = self._const(sl)
             return base.items[i]
+        if base.kind == "cyc" and isinstance(sl, ast.Tuple) and len(sl.elts) == 2 and not isinstance(sl.elts[0], (ast.Slice, ast.Constant)):
+            # v[(i + k) % N, c]: cyclic shift, then a column
+            try:
+                iv = self.ev(sl.elts[0])
+            except NotInFragment:
+                iv = None
+            if iv is not None and iv.kind == "cycidx":
+                shifted = SV("cyc", [shift_poly(c, int(iv.comps[0].const_value())) for c in base.comps], base.summed)
+                c = self._const(sl.elts[1])
+                if isinstance(c, int):
+                    return SV("cyc", [shifted.comps[c]], base.summed)
+                if isinstance(sl.elts[1], ast.Name) and sl.elts[1].id in self.env and self.env[sl.elts[1].id].kind == "colsym":
+                    return SV("cyc", [self._generic_col(shifted, self.env[sl.elts[1].id].comps[0])], base.summed)
+                raise NotInFragment("cyc subscript")
+        if base.kind == "cyc" and not isinstance(sl, (ast.Tuple, ast.Slice, ast.Constant)):
+            try:
+                iv = self.ev(sl)
+            except NotInFragment:
+                iv = None
+            if iv is not None and iv.kind == "cycidx":
+                k_ = iv.comps[0].const_value()
+                return SV("cyc", [shift_poly(c, int(k_)) for c in base.comps], base.summed)
         if base.kind == "cyc":
             # v[k]: a row picked at a fixed position of the vertex list - the value depends on where the list starts
             k0 = self._const(sl)
@@ -400,6 +438,8 @@ class Evaluator:
         kw = {k.arg: k.value for k in n.keywords}
         if f in self.hooks:
             return self.hooks[f](self, n)
+        if f in ("np.arange", "range", "numpy.arange") and len(args) == 1:
+            return SV("cycidx", [Poly.const(0)])     # the identity index i = 0 .. N-1 of the vertex cycle
         if f == "np.roll":
             v = self.ev(args[0])
             sh = self._const(kw["shift"]) if "shift" in kw else self._const(args[1])
